@@ -1,4 +1,4 @@
-import H2V.Lemmas.ConnPartPRstWu
+import H2V.Lemmas.ConnPartPRstData
 /-
   C09 (cover) — "violations confined to one stream get at least a RST_STREAM while other streams keep
   working": the RST_STREAM is really OWED — queued on the stream, the stream scheduled in the connection's
@@ -82,6 +82,35 @@ theorem window_update_overflow_queues_rst_stream (s : Streams) (id inc k : Nat) 
     (∀ k' st0, k' ≠ k → s.store.get? k' = some st0 → st0.pendingSend ≠ [] →
       ∃ st'', (s.recvWindowUpdate id inc).1.store.get? k' = some st'' ∧ CoreEq st0 st'') :=
   recvWindowUpdate_overflow_owes s id inc k st h0 hk hg hp hc ho hkb hr hq
+
+/-- **instance of (1): the entry point `Inner::recv_data` as a whole.**  When `Recv::recv_data` answers a stream
+    error `Reset(sid, reason, init)` for a DATA frame on a known stream (DATA beyond the stream's window →
+    FLOW_CONTROL_ERROR, more DATA than `content-length` → PROTOCOL_ERROR, …) — `s1`/`st1` being the stream
+    layer / the stream's entry at that moment — `Inner::recv_data` gives the frame's octets back to the
+    connection window, runs the dispatcher inside the `transition` closure, then `transition_after`: its result
+    is `Ok(())`, and in the state it returns the RST_STREAM(reason) is the stream's only queued frame, the
+    stream is scheduled (and in the queue, the queue of the INITIAL state being consistent), the other entries
+    are kept.  (`recv_headers` / `recv_push_promise` have the same shape: `transition(closure ending in
+    reset_on_recv_stream_err)`; not spelled out.) -/
+theorem recv_data_stream_error_queues_rst_stream (s : Streams) (id : Nat) (p : Bytes) (eos : Bool) (pad : Option Nat)
+    (k : Nat) (s1 : Streams) (sid : Nat) (reason : Reason) (init : Initiator) (st1 : Stream)
+    (hf : s.store.findKey? id = some k)
+    (h1 : s.recvRecvData k p eos pad = (s1, .error (.reset sid reason init)))
+    (hkb : KeysBelow s1.store) (hg : s1.store.get? k = some st1)
+    (hq : s1.counts.canIncNumLocalErrorResets = true) (hr : st1.state.isReset = false)
+    (hne : (st1.state.isClosed && (st1.pendingSend.isEmpty && st1.bufferedSendData == 0)) = false) :
+    (s.recvData id p eos pad).2 = .ok () ∧
+    (∃ st', (s.recvData id p eos pad).1.store.get? k = some st' ∧ st'.id = st1.id ∧
+      st'.state = ⟨.closed (.error (.reset st1.id reason init))⟩ ∧
+      st'.pendingSend = (if st1.isPendingOpen then st1.pendingSend.head?.toList else []) ++ [.reset reason] ∧
+      (st1.isSendReady = true → st'.isPendingSend = true ∧
+        (H2V.Lemmas.ConnCountsP.QOK .pendingSend s → (s.recvData id p eos pad).1.panicked = none →
+          k ∈ (s.recvData id p eos pad).1.prio.pendingSend))) ∧
+    (∀ k' st'', k' ≠ k → k' < s1.store.nextKey → (s.recvData id p eos pad).1.store.get? k' = some st'' →
+      ∃ st0, s1.store.get? k' = some st0 ∧ CoreEq st0 st'') ∧
+    (∀ k' st0, k' ≠ k → s1.store.get? k' = some st0 → st0.pendingSend ≠ [] →
+      ∃ st'', (s.recvData id p eos pad).1.store.get? k' = some st'' ∧ CoreEq st0 st'') :=
+  recvData_stream_error_owes s id p eos pad k s1 sid reason init st1 hf h1 hkb hg hq hr hne
 
 /-- **when no RST_STREAM is queued — and why that is right.**  `Send::send_reset` leaves a stream alone
     that is reset already (`state.is_reset()`: by us — its RST_STREAM is queued or has gone out, a second
@@ -192,6 +221,12 @@ def exRecv : Streams :=
 def exRecvW : Streams :=
   { exRecv with store := { exRecv.store with slab := exRecv.store.slab.map fun x => { x with sendFlow := ⟨⟨1⟩, ⟨0⟩⟩ } } }
 
+/-- `exRecv` with a connection receive window of 65 535 and a stream receive window of 5 octets -/
+def exRecvD : Streams :=
+  { exRecv with
+    store := { exRecv.store with slab := exRecv.store.slab.map fun x => { x with recvFlow := ⟨⟨5⟩, ⟨5⟩⟩ } },
+    actions := { exRecv.actions with recv := { exRecv.actions.recv with flow := ⟨⟨65535⟩, ⟨65535⟩⟩ } } }
+
 theorem exRecv_keysBelow : KeysBelow exRecv.store := by
   intro k st h
   have : st ∈ exRecv.store.slab := List.mem_of_find?_eq_some h
@@ -228,6 +263,16 @@ example : exRecvW.store.findKey? 1 = some 0 ∧ (exRecvW.stream 0).isPendingOpen
     (exRecvW.recvWindowUpdate 1 2147483647).1.prio.pendingSend = [0] := by
   refine ⟨by decide, by decide, by decide, by decide, by decide, by decide, by decide⟩
 
+/-- the `recv_data` instance on `exRecvD` (`exRecv` with a stream receive window of 5 octets): 10 octets of DATA on
+    stream 1 overrun the stream window — `Recv::recv_data` answers the stream error FLOW_CONTROL_ERROR,
+    `Inner::recv_data` answers `Ok(())` and leaves RST_STREAM(FLOW_CONTROL_ERROR) queued and the stream scheduled -/
+example : exRecvD.store.findKey? 1 = some 0 ∧
+    (exRecvD.recvRecvData 0 [1,2,3,4,5,6,7,8,9,10] false none).2 = .error (.reset 1 FLOW_CONTROL_ERROR .library) ∧
+    (exRecvD.recvData 1 [1,2,3,4,5,6,7,8,9,10] false none).2 = .ok () ∧
+    ((exRecvD.recvData 1 [1,2,3,4,5,6,7,8,9,10] false none).1.stream 0).pendingSend = [.reset FLOW_CONTROL_ERROR] ∧
+    (exRecvD.recvData 1 [1,2,3,4,5,6,7,8,9,10] false none).1.prio.pendingSend = [0] := by
+  refine ⟨by decide, by decide, by decide, by decide, by decide⟩
+
 /-- … and `pop_frame` then hands RST_STREAM(1, FLOW_CONTROL_ERROR) to the codec -/
 example : (match (Streams.popFrame 4 (exRecv.resetOnRecvStreamErr 0 (.error (.reset 1 3 .library))).1 16384).2 with
     | some (.reset 1 3) => true
@@ -246,6 +291,7 @@ end H2V.Props.C09Cover
 
 #print axioms H2V.Props.C09Cover.stream_error_queues_rst_stream
 #print axioms H2V.Props.C09Cover.window_update_overflow_queues_rst_stream
+#print axioms H2V.Props.C09Cover.recv_data_stream_error_queues_rst_stream
 #print axioms H2V.Props.C09Cover.no_rst_stream_for_reset_or_finished_stream
 #print axioms H2V.Props.C09Cover.escaping_stream_errors
 #print axioms H2V.Props.C09Cover.escaped_stream_error_reaches_send_reset
